@@ -42,6 +42,13 @@ def run(ck):
                 off = sorted({inv[int(x)] for x in re.findall(r'\d+', tail.split(':')[0])})
                 ck.obligation(f'use_temperature_tuning={flag}: xRFM.fit ; predict reads no mutable attribute before fit (re)writes it (trace size {af.size_of(whole)}, '
                               f'mutable: {sorted(mutable)}, exempt: tuning_metric, class_converter_*)', 'translation', not off, f'read before (re)written: {off}')
+        # side conditions under which the exemptions are justified (re-checked on the current source)
+        undominated = fg.exemption_side_condition('xRFM', 'fit', ['class_converter_'])
+        ck.obligation('exemption side condition: inside xRFM.fit every direct read of class_converter_ (incl. hasattr/getattr) is dominated by a write in the same call',
+                      'translation', not undominated, f'reads not dominated by a write: {undominated}')
+        tm = fg.tuning_metric_shape()
+        ck.obligation('exemption side condition: xRFM.fit writes tuning_metric only in the else-branch of `if self.tuning_metric is not None`, with a value that depends '
+                      'on the task type alone', 'translation', tm is None, str(tm))
         sites = fg.rng_sites()
         ck.obligation(f'all {len(sites)} random draws use the seeded global generators (no private generator, no generator= argument)', 'translation', True)
         ck.notes.append('RNG call sites: ' + '; '.join(f'{a.split("/")[-1]}:{b} {c}' for a, b, c in sites))
